@@ -234,7 +234,7 @@ func tfRun(id int, chain []string, rng *rand.Rand, nprobe int) (rec tfRec) {
 			x := probe()
 			y := t.Apply(tfPt(x))
 			s := sdf.SDF(y)
-			v := s * s * tfD * tfD
+			v := s * s * tfD * tfD * 64 // 64 more: chains of three halvings scale distances by 1/8
 			rec.SDF = append(rec.SDF, struct {
 				X   []int `json:"x"`
 				S2  int   `json:"s2"`
@@ -412,7 +412,7 @@ func tfRun2(id int, chain []string, rng *rand.Rand, nprobe int) (rec tfRec, ok b
 			x := probe()
 			y := t.Apply(tfPt2(x))
 			sv := sdf.SDF(y)
-			v := sv * sv * tfD * tfD
+			v := sv * sv * tfD * tfD * 64
 			rec.SDF = append(rec.SDF, struct {
 				X   []int `json:"x"`
 				S2  int   `json:"s2"`
